@@ -11,7 +11,7 @@ META = dict(
               "recorded outcomes are judged by TLC with the same laws",
     level_text="TLC enumerates all graphs (<= 2 parents, ordered; optionally one ghost as a merged parent) and all pairs "
                "(target tip t, source tip s) that cover the graph, with every operation of OpsOf: pull / push x "
-               "overwrite x append-only, every stop revision in the source's ancestry, bound target, update from a "
+               "the overwrite argument forms (False, True, {history}, {tags}, {history, tags}) x append-only, every stop revision in the source's ancestry, bound target, update from a "
                "master, generate_revision_history (with / without last_rev), set_last_revision_info, uncommit, commit. "
                "The property's tip / revno / append-only rules are stated declaratively (ancestry, left-hand history) "
                "and proved by TLC on the mechanism-shaped transcription (heads, left-hand walk); each exported case is "
@@ -24,6 +24,11 @@ META = dict(
                "algorithms, TLC, the JSON bridge.",
 )
 
+# the forms of the overwrite argument (History!OwForms): what the command line passes for --overwrite / --overwrite-tags
+OVERWRITE = {0: False, 1: True, 2: {"history"}, 3: {"tags"}, 4: {"history", "tags"}}
+OW_NAMES = {1: "overwrite", 2: "overwrite-history", 3: "overwrite-tags-only", 4: "overwrite-history-tags"}
+
+
 def _stop(x):
     return hc.rid(x) if x else None
 
@@ -32,7 +37,7 @@ def run_op(h, area, kind, t, s, op):
     """One operation on a fresh target branch with tip t (in the case's area); returns the outcome tuple."""
     from breezy.uncommit import uncommit
     k, ow, ao, stop, lr, bound = op
-    ow, ao, lr, bound = bool(ow), bool(ao), bool(lr), bool(bound)
+    ow, ao, lr, bound = OVERWRITE[ow], bool(ao), bool(lr), bool(bound)
     tgt = area.branch(t)
     src = h.shared(s)
     master = None
@@ -103,7 +108,7 @@ def _klass(par, t, s, op):
         rel = "lefthand-descendant" if t in hc.lefthand(par, q) else "merged-descendant"
     else:
         rel = "diverged"
-    flags = [n for n, on in (("overwrite", op[1]), ("append-only", op[2]), ("stop", op[3]), ("last_rev", op[4]),
+    flags = [n for n, on in ((OW_NAMES.get(op[1]), op[1]), ("append-only", op[2]), ("stop", op[3]), ("last_rev", op[4]),
                              ("bound", op[5]), ("ghost", any(p == hc.GHOST for ps in par for p in ps))) if on]
     return "%s:%s%s" % (op[0], rel, "".join("+" + f for f in flags))
 
@@ -143,7 +148,7 @@ def _falsified(rows):
                 x["out"][k][1] += 1
                 x["out"][k][4] += 1
                 out.append(("revno", x))
-            elif len(out) == 1 and op[0] == "pull" and not op[1] and o[2] == "DivergedBranches":
+            elif len(out) == 1 and op[0] == "pull" and op[1] in (0, 3) and o[2] == "DivergedBranches":
                 x = copy.deepcopy(r)
                 x["out"][k][0] = x["out"][k][3] = op[3] or r["c"]["s"]
                 x["out"][k][1] = x["out"][k][4] = len(hc.lefthand(r["c"]["par"], x["out"][k][0]))
@@ -164,15 +169,15 @@ def run(ctx):
     off = ctx.seed
     L, LF = ("LawsHoldOnSpec",), ("LawsHoldOnSpec", "FastAgreesWithDag")
     if ctx.quick:
-        plan = [("<=4 revisions, ghost", hc.gen_cfg(1, 4, 2, 1, 3, off), LF, True, True),
-                ("5 revisions", hc.gen_cfg(5, 5, 2, 0, 40, off), L, True, False)]
+        plan = [("<=4 revisions, ghost", hc.gen_cfg(1, 4, 2, 1, 4, off), LF, True, True),
+                ("5 revisions", hc.gen_cfg(5, 5, 2, 0, 60, off), L, True, False)]
         remote_every, pack_every = 12, 8
     else:
         plan = [("<=4 revisions, ghost", hc.gen_cfg(1, 4, 2, 1), LF, True, True),
-                ("5 revisions", hc.gen_cfg(5, 5, 2, 0, 3, off), L, True, False),
-                ("5 revisions, ghost", hc.gen_cfg(5, 5, 2, 1, 16, off), L, True, False),
+                ("5 revisions", hc.gen_cfg(5, 5, 2, 0, 4, off), L, True, False),
+                ("5 revisions, ghost", hc.gen_cfg(5, 5, 2, 1, 24, off), L, True, False),
                 ("<=4 revisions, 3 parents, ghost", hc.gen_cfg(3, 4, 3, 1, 3, off), L, True, False),
-                ("6 revisions", hc.gen_cfg(6, 6, 2, 0, 80, off), L, True, False)]
+                ("6 revisions", hc.gen_cfg(6, 6, 2, 0, 120, off), L, True, False)]
         remote_every, pack_every = 10, 5
     cases = hc.generate(ctx, "HistoryC21Gen", plan)
     groups = hc.group_by_graph(cases)
